@@ -178,11 +178,12 @@ class CSSPageRule(cssrule.CSSRuleRules):
                         self._log.error('CSSPageRule selectorText: Expected '
                                         'IDENT but found: %r' % ival, token)
                     else:
-                        if ival not in ('first', 'left', 'right'):
+                        nval = self._normalize(ival)
+                        if nval not in ('first', 'left', 'right'):
                             self._log.warn('CSSPageRule: Unknown @page '
                                            'selector: %r'
                                            % (':'+ival,), neverraise=True)
-                        if ival == 'first':
+                        if nval == 'first':
                             new['first'] = 1
                         else:
                             new['lr'] = 1
